@@ -30,6 +30,9 @@ Audit extension (strata added after the coverage audit; each has its own counter
   long lines / big  header fields > 998 bytes, 300 fields, body lines of 1000..70000 bytes, bodies of 100..250 kB
   header shapes     header-only data (no blank line), a line without colon, bare-LF header lines, a white-space-only
                     continuation line
+  normal forms      addresses that are not in Unicode NFC / NFKC (e + U+0301, Hangul jamo, U+212B / U+2126, ligatures,
+                    full-width letters) in local parts and domains, sender and recipients; the NFC and the NFD spelling
+                    of one string side by side as two recipients; oracle unchanged (same code points, same order)
   address classes   upper/mixed case local parts and domains, source routes (judged leniently: identical or route
                     stripped), "Postmaster"
   reply classes     the edge's queue answers with a RelayError (not only QueueError), a QueueError without reply;
@@ -50,6 +53,7 @@ Audit extension (strata added after the coverage audit; each has its own counter
 """
 import re
 import random
+import unicodedata
 import base64
 import email
 import traceback
@@ -160,7 +164,7 @@ ASSUMPTIONS = ['LMTP: the library has no LMTP-receiving edge; the LMTP leg is ju
                '(no idle_timeout), message k on connection k, conditional classes follow that connection\'s table',
                'multipart / mislabelled-CTE down-conversion is left to C20 (encode_7bit); BINARYMIME / CHUNKING are not '
                'implemented by the library and only appear as advertised keywords']
-REQUIRED_HITS = ['smtp-hop-delivered', 'http-hop-delivered', 'lmtp-hop-delivered', 'sender-compared',
+REQUIRED_HITS = ['non-nfc-address-compared', 'smtp-hop-delivered', 'http-hop-delivered', 'lmtp-hop-delivered', 'sender-compared',
                  'recipients-compared', 'content-compared', 'extensions-compared', 'reply-code-compared',
                  'per-recipient-rejection-judged', 'reuse-one-connection', 'tls-hop', 'auth-hop', 'helo-fallback-hop',
                  # audit strata
@@ -326,14 +330,23 @@ ATEXT_SPECIAL = "!#$%&'*+-/=?^_`{|}~"
 QTEXT_POOL = ['>', '@', ' ', ',', '<', ';', ':', '(', ')', '[', ']', '.', '..', 'a', 'b', 'Z', '0', '!', "'", '=',
               '>', '@', ' ', ',']
 QPAIR_POOL = ['\\"', '\\\\', '\\"', '\\\\', '\\ ', '\\a', '\\>', '\\@']
+# strings that are NOT in Unicode normal form C (and some not in NFKC): decomposed letters, Hangul jamo, the
+# compatibility singletons ANGSTROM SIGN / OHM SIGN, ligatures, full-width letters.  The hop must carry the code
+# points it was given (same code points, same order) -- a normalising client or edge changes the address.
+U_NON_NFC_LOCAL = ['e\u0301ric', 'cafe\u0301', 'a\u0308o\u0308u\u0308', 'n\u0303.o\u0302', 'q\u0307\u0323',
+                   '\u1112\u1161\u11ab\u1100\u1173\u11af', '\u1100\u1161', '\u212bngstrom', '\u2126hm',
+                   'o\ufb03ce', '\ufb01sh', '\uff55\uff53\uff45\uff52', '\u01c4ak', 's\u0323\u0307']
+U_NON_NFC_DOMAIN = ['cafe\u0301.test', 'bu\u0308cher.example', '\u1112\u1161\u11ab.test', '\u212b.test',
+                    '\u2126.example', 'o\ufb03ce.test', '\uff45\uff58.test', 'sub.e\u0301.test']
 U_LOCAL = ['\u00fcser', 'j\u00f8rn', '\u7528\u6237', '\u03b4\u03bf\u03ba\u03b9\u03bc\u03ae', 'us\u00e9r.n\u00e4me',
-           '\U0001f600mail', '\u00e9']
-U_DOMAIN = ['ex\u00e4mple.test', '\u4f8b\u3048.jp', 'b\u00fccher.example', 'sub.\u00fc.test']
+           '\U0001f600mail', '\u00e9'] + U_NON_NFC_LOCAL[::2]
+U_DOMAIN = ['ex\u00e4mple.test', '\u4f8b\u3048.jp', 'b\u00fccher.example', 'sub.\u00fc.test'] + U_NON_NFC_DOMAIN[::3]
 A_DOMAIN = ['x.test', 'y.test', 'sub.example.org', 'a-b.c-d.test', 'xn--bcher-kva.example', 'x1.y2.z3.test',
             'EXAMPLE.Test']
 LITERAL = ['[127.0.0.1]', '[IPv6:::1]', '[IPv6:2001:db8::1]', '[192.0.2.55]']
 ADDR_KINDS = ['plain', 'plain', 'plain', 'atext', 'quoted', 'quoted', 'quoted-qp', 'quoted-qp', 'utf8-local',
-              'utf8-domain', 'utf8-both', 'long', 'literal', 'quoted-utf8', 'mixed-case', 'source-route']
+              'utf8-domain', 'utf8-both', 'long', 'literal', 'quoted-utf8', 'mixed-case', 'source-route',
+              'non-nfc', 'non-nfc']
 
 
 def gen_address(rnd, kind):
@@ -373,6 +386,13 @@ def gen_address(rnd, kind):
             dom = '.'.join('d' * 30 for _ in range(5)) + '.test'
     elif kind == 'literal':
         loc, dom = 'user%d' % rnd.randrange(100), rnd.choice(LITERAL)
+    elif kind == 'non-nfc':
+        r = rnd.random()
+        loc = rnd.choice(U_NON_NFC_LOCAL) if r < 0.75 else 'rcpt%d' % rnd.randrange(100)
+        if rnd.random() < 0.25:
+            loc = '"' + loc + rnd.choice([' ', '>', '@', '']) + rnd.choice(U_NON_NFC_LOCAL) + '"'
+        if r >= 0.5:
+            dom = rnd.choice(U_NON_NFC_DOMAIN)
     elif kind == 'mixed-case':
         loc = '.'.join(''.join(rnd.choice('abcxyzABCXYZ09') for _ in range(rnd.randrange(1, 8)))
                        for _ in range(rnd.choice([1, 1, 2]))) + rnd.choice(['', '', '+Tag', '+TAG.x'])
@@ -454,6 +474,10 @@ def addr_features(a):
             i += 1
     elif any(ch in ATEXT_SPECIAL for ch in loc):
         f.add('atext-special')
+    if unicodedata.normalize('NFC', a) != a:
+        f.add('not-nfc')
+    elif unicodedata.normalize('NFKC', a) != a:
+        f.add('not-nfkc')
     if any(ord(ch) > 127 for ch in loc):
         f.add('utf8-local')
     if any(ord(ch) > 127 for ch in dom):
@@ -810,6 +834,12 @@ GRID_ADDRS = [
     ('a@x.test', ['r1@x.test', 'r2@x.test', 'r1@x.test', 'r3@y.test', 'r2@x.test']),
     ("o'brien+tag/x=y@x.test", ['{curly}|pipe~@x.test', 'user@[127.0.0.1]', 'u@[IPv6:::1]']),
     ('l' * 64 + '@x.test', ['"' + 'q >' * 20 + 'ab"@' + '.'.join(['d' * 30] * 5) + '.test']),
+    # normal forms: decomposed / jamo / singleton / ligature / full-width addresses, and the same string in NFC and in
+    # NFD side by side as two recipients (two different mailboxes for the hop)
+    ('e\u0301ric@cafe\u0301.test', ['\u00e9ric@x.test', 'e\u0301ric@x.test', '\u212bngstrom@\u2126.example',
+                                     '\u1112\u1161\u11ab@\u1112\u1161\u11ab.test', '\ud55c@\ud55c.test']),
+    ('o\ufb03ce@x.test', ['\uff55\uff53\uff45\uff52@\uff45\uff58.test', 'user@ex.test', '"a\u0308 o\u0308"@bu\u0308cher.example',
+                          '"\u00e4 \u00f6"@b\u00fccher.example', '\u00c5ngstrom@x.test', '\u212bngstrom@x.test']),
     # audit: case, plus-addressing in upper case, a recipient without domain, source routes
     ('MiXed.Case+Tag@Example.TEST', ['UPPER@X.TEST', 'upper@x.test', 'Upper@X.test', 'Postmaster']),
     ('@a.test,@b.test:user@x.test', ['@relay.test:rcpt@x.test', 'r@x.test', '@a.test:"q:r,@s"@y.test']),
@@ -847,6 +877,13 @@ def random_envelope(rnd, allow_utf8=True):
     rcpts = [gen_address(rnd, rnd.choice(kinds)) for _ in range(rnd.choice([1, 1, 2, 2, 3, 4, 5]))]
     if len(rcpts) >= 2 and rnd.random() < 0.3:
         rcpts[rnd.randrange(len(rcpts))] = rnd.choice(rcpts)          # duplicate
+    if rnd.random() < 0.25:
+        # the same address in another normal form next to it: a different mailbox as far as the hop is concerned
+        for r in list(rcpts):
+            other = unicodedata.normalize(rnd.choice(['NFC', 'NFD']), r)
+            if other != r and other not in rcpts:
+                rcpts.insert(rnd.randrange(len(rcpts) + 1), other)
+                break
     if rnd.random() < 0.012:
         rcpts = many_recipients(rnd, rnd.choice([60, 90, 101, 130, 200]), allow_utf8)
     return sender, rcpts
@@ -1727,6 +1764,8 @@ class Judge(object):
         bclass = body_class(orig.partition(b'\r\n\r\n')[2])
         R.hit('sender-compared')
         hclass = header_class(bytes(msg['data']))
+        if any(unicodedata.normalize('NFC', a) != a for a in [msg['sender']] + list(want_rcpts)):
+            R.hit('non-nfc-address-compared')
         if self.case.get('chunk'):
             R.hit('chunked-transport-hop')
             R.count('chunked-hop/%s/%d-bytes-per-read' % (t, self.case['chunk']))
